@@ -11,7 +11,13 @@ VARIABLES st, l
 CleanOk(r) == r.status = 0 /\ r.pre_ok /\ r.leak = 0 /\ r.n >= 0
 FaultOk(r) == /\ (r.status = 0 /\ r.same) \/ (r.status = 1 /\ r.hit)
               /\ r.pre_ok /\ r.leak = 0
-StepOfImpl(s, r) == [ok |-> IF r.e = "clean" THEN CleanOk(r) ELSE IF r.e = "fault" THEN FaultOk(r) ELSE FALSE, st |-> s]
+\* "pfault": a generated document parsed (in one call or in chunks) with the k-th allocation request failing: the
+\* outcome is the fault-free outcome (status, value, end position) or - only when the failure was really delivered -
+\* no value with the out-of-memory status; after the parser and the value are released nothing remains allocated
+PFaultOk(r) == /\ r.leak = 0
+               /\ \/ r.got = r.clean
+                  \/ (r.hit /\ r.got.st = "memory" /\ r.got.val.t = "none")
+StepOfImpl(s, r) == [ok |-> IF r.e = "clean" THEN CleanOk(r) ELSE IF r.e = "fault" THEN FaultOk(r) ELSE IF r.e = "pfault" THEN PFaultOk(r) ELSE FALSE, st |-> s]
 TraceLog == ndJsonDeserialize(IOEnv.TRACE)
 T == INSTANCE TraceBase WITH Log <- TraceLog, InitSt <- 0, StepOf <- StepOfImpl, ResyncAtNew <- FALSE
 Spec == T!Spec
